@@ -87,7 +87,7 @@ func runOptions(o opts, out *Output) {
 			sig = 0 // the ordering options only concern traces
 		}
 		signal := []string{"traces", "logs", "metrics"}[sig]
-		g := &OGen{r: r.Fork(), Wide: r.Chance(60)}
+		g := &OGen{r: r.Fork(), Wide: r.Chance(60), Mono: monoPick(r)}
 		pr := newProducerRun(options...)
 		cons := arrow_record.NewConsumer() // default consumer
 		nb := 2 + r.Intn(3)
